@@ -68,7 +68,7 @@ def registry_only_grows(prog, rep, rule="REG-2"):
                 rep.fail(rule, "%s|%s" % (f.short, bad), "%s changes the handler registry with %s: handlers registered before (the default error "
                          "rules, when the registry is the shared one) are replaced or dropped" % (f.short, bad), where(f, node),
                          witness="doc.validate().register_custom_handler('section', rule); afterwards a Section without type is saved")
-    rep.floor(rule, n, 3, "uses of the handler registry")
+    rep.floor(rule, n, 2, "uses of the handler registry")
     if not n_bad:
         rep.ok(rule, "the handler registry is only extended", "%d uses inspected" % n, vmod.path)
 
